@@ -638,8 +638,7 @@ def run_c17(rep, wd, tier, seed, replay):
                 "get_selection over 40 static addresses, static_is_empty. non-trivial = distinct term with >=1 present "
                 "and >=1 absent in-scope probe")
     if replay:
-        with open(replay) as f:
-            cases = [json.load(f)["detail"]["case"]]
+        cases = [replay["detail"]["case"]]
         jit_every = 1
     else:
         level = 0 if tier == "quick" else 1
@@ -663,9 +662,7 @@ def run_c17(rep, wd, tier, seed, replay):
         rep.extra["random_terms"] = s.distinct
         jit_every = 47 if tier == "quick" else 23
     if replay:
-        with open(replay) as f:
-            sp0 = json.load(f)["detail"].get("sp", 0)
-        items = [(sp0, cases[0], True)]
+        items = [(replay["detail"].get("sp", 0), cases[0], True)]
     else:
         # the number i selects the API spellings used for the term (rotating, shifted by the seed)
         items = [(i + seed % 1000, c, (i % jit_every == 0)) for i, c in enumerate(cases)]
@@ -707,8 +704,7 @@ def run_c33(rep, wd, tier, seed, replay):
                 "compared with InvalidSubsetM computed by TLC: None-ness, and public lookups of the returned map at the map's own addresses and three decoys (plain, under index 0/1, indexed at the leaf). "
                 "non-trivial = case with >=1 valid and >=1 invalid address")
     if replay:
-        with open(replay) as f:
-            cases = [json.load(f)["detail"]["case"]]
+        cases = [replay["detail"]["case"]]
     else:
         md = 2 if tier == "quick" else 3
         # NChains = 0 makes TLC print all six wrappers of every map; 1 = one wrapper per map rotating with Seed
@@ -759,6 +755,9 @@ def run_c33(rep, wd, tier, seed, replay):
 
 
 def run(prop_id, tier, seed, replay=None):
+    if replay:        # read it first: the replay file usually lives in the work directory that is recreated below
+        with open(replay) as f:
+            replay = json.load(f)
     rep = vlib.Report(prop_id, tier, seed)
     wd = vlib.workdir(prop_id)
     if prop_id == "C17":
